@@ -123,7 +123,9 @@ func runStreams(ctx *harness.Ctx, o streamOpts, fn func(t harness.T, leg string,
 	// long inputs: many recoveries in one parse, very long lists, one huge Bad node
 	ctx.Rapid("long", o.long, func(t *rapid.T) {
 		var src, kind string
-		switch rapid.IntRange(0, 3).Draw(t, "longkind") {
+		switch rapid.IntRange(0, 4).Draw(t, "longkind") {
+		case 4:
+			src, _ = drawManyLines(t) // hundreds / thousands of lines, an error at offset 0, at a line start or at the end
 		case 0:
 			frag := rapid.SampledFrom([]string{"SELECT 1 +", "1 +", "(1 +)", "a b", "CREATE TABLE", "x y z", "(a, b)", "SELECT (1, 2), (3, 4)", "f(", "CAST(1 AS", "DELETE t", "a[", "@{a=(1 +)} DELETE t WHERE",
 				"SELECT 1", "(1, (2))", "INSERT INTO t (a) VALUES (1 +)", "STRUCT<1>", "a.", "x IN ("}).Draw(t, "frag")
